@@ -106,7 +106,8 @@ func init() {
 			if simrt.Choose(2) == 0 {
 				q = pubsub.NewUnlimitedQueue[int]()
 			} else {
-				q, _ = pubsub.NewQueue[int](pubsub.QueueOptions{HardLimit: 2 + simrt.Choose(3), SoftQuota: 1 + simrt.Choose(2)})
+				hl := 1 + simrt.Choose(4)
+				q, _ = pubsub.NewQueue[int](pubsub.QueueOptions{HardLimit: hl, SoftQuota: 1 + simrt.Choose(hl), BurstCredit: float64(simrt.Choose(4))})
 			}
 			d := q.Distributor()
 			return func() []method {
@@ -142,7 +143,8 @@ func init() {
 			case 1:
 				dq, _ = pubsub.NewDeque[int](pubsub.DequeOptions{Capacity: 1 + simrt.Choose(3)})
 			default:
-				dq, _ = pubsub.NewDeque[int](pubsub.DequeOptions{QueueOptions: &pubsub.QueueOptions{HardLimit: 3, SoftQuota: 2}})
+				hl := 2 + simrt.Choose(4)
+				dq, _ = pubsub.NewDeque[int](pubsub.DequeOptions{QueueOptions: &pubsub.QueueOptions{HardLimit: hl, SoftQuota: 1 + simrt.Choose(hl), BurstCredit: float64(simrt.Choose(4))}})
 			}
 			d := dq.Distributor()
 			dn := dq.DistributorNonBlocking()
